@@ -66,7 +66,7 @@ Fixpoint split_on (sep : N) (t : text) : list text :=
 
 (* ------------------------------------------------------------------ *)
 (* errors                                                              *)
-Inductive err := EError | EValueError | ETypeError | EOverflowError | EException.
+Inductive err := EError | EValueError | ETypeError | EOverflowError | EException | EAttributeError.
 Inductive res (A : Type) := Ok (a : A) | Err (e : err).
 Arguments Ok {A} a. Arguments Err {A} e.
 
@@ -632,7 +632,22 @@ Fixpoint cfg_loop (os : list opt) (bs : list (text * value)) : list opt * option
       end
   end.
 
-Inductive source := SCmd (argv : list text) | SCfg (bindings : list (text * value)).
+(* OptionParser.__setattr__ / __setitem__: options.name = value, one assignment after another *)
+Fixpoint set_loop (os : list opt) (bs : list (text * value)) : list opt * option err :=
+  match bs with
+  | [] => (os, None)
+  | (name, v) :: bs' =>
+      match lookup (normalize name) os with
+      | None => (os, Some EAttributeError)
+      | Some o =>
+          let '(o', e) := opt_set o v in
+          let os' := update o' os in
+          match e with Some e => (os', Some e) | None => set_loop os' bs' end
+      end
+  end.
+
+Inductive source := SCmd (argv : list text) | SCfg (bindings : list (text * value))
+                  | SSet (assignments : list (text * value)).
 
 (* a sequence of parse_command_line / parse_config_file calls on one parser;
    stops at the first call that raises.  Outcome per executed call: the
@@ -647,6 +662,11 @@ Fixpoint run_sources (os : list opt) (ss : list source) : list opt * list (res (
       end
   | SCfg bs :: ss' =>
       match cfg_loop os bs with
+      | (os', None) => let '(os'', outs) := run_sources os' ss' in (os'', Ok [] :: outs)
+      | (os', Some e) => (os', [Err e])
+      end
+  | SSet bs :: ss' =>
+      match set_loop os bs with
       | (os', None) => let '(os'', outs) := run_sources os' ss' in (os'', Ok [] :: outs)
       | (os', Some e) => (os', [Err e])
       end
